@@ -402,6 +402,7 @@ def make_builtins(I):
 
     @b("print")
     def _print(*a, **k):
+        I.draw_log.append(("print", a, k))
         return None
 
     @b("repr")
@@ -718,6 +719,12 @@ def compare_foreign(I, op, a, b):
 
 
 def getitem_foreign(I, o, idx):
+    import re as _re
+    if isinstance(o, _re.Match):
+        try:
+            return o[idx]
+        except IndexError as e:
+            raise Raised(e)
     if isinstance(o, TypingDummy):
         return TypingDummy(o.name + "[]")
     if hasattr(o, "py_getitem"):
@@ -726,6 +733,8 @@ def getitem_foreign(I, o, idx):
 
 
 def builtin_setattr(I, o, name, v):
+    if hasattr(o, "py_setattr"):
+        return o.py_setattr(name, v)
     raise Raised(AttributeError(f"'{I.type_name(o)}' object has no attribute '{name}'"))
 
 
